@@ -26,12 +26,14 @@ LEVEL_TEXT = ("Bounded contract checking by single-fault mutation: every valid g
               "declare different defaults for an argument that neither binds and no function produces; two nested loop "
               "invariants over the dict of recorded defaults). Category 'other' = "
               "those contracts + bounded fault-class checking; it is not a proof of C12.")
+LEVEL_TEXT += (' Also proved: _check_inputs (raises exactly when an input that the MapSpecs index with more than one axis is given as a list or tuple).')
 LEVEL_NOTE = ("Fault classes: duplicate output, output named like own parameter, cycle, inconsistent defaults, "
               "MapSpec/signature mismatch, inconsistent axes between MapSpecs, missing input, surplus input, wrong "
               "rank, zipped dimension mismatch, unknown storage, executor with parallel=False. Trusted: the generators' "
               "notion of a valid case (checked by C01/C02).")
 TECHNIQUE = ("bounded single-fault mutation contract checking; validate_unique_output_names and _validate_shapes "
              "discharged by z3")
+TECHNIQUE += ('; _validate_complete_inputs, validate_consistent_defaults and _check_inputs as well')
 EXPLANATION = LEVEL_TEXT
 RULE = ("valid case x fault class; distinct = distinct (case, fault); non-trivial = every case (each is a faulty request "
         "that must be rejected)")
